@@ -65,7 +65,7 @@ func blobOf(b []byte) obj {
 	return obj{"t": "lit", "b": raw}
 }
 
-func strOf(s string) obj { return blobOf([]byte(s)) }
+func strOf(s string) obj           { return blobOf([]byte(s)) }
 func blobStr(x interface{}) string { return string(blobBytes(x)) }
 
 func optBlobBytes(x interface{}) []byte {
@@ -87,9 +87,9 @@ func optBlobOf(b []byte) arr {
 	return arr{blobOf(b)}
 }
 
-func has(x interface{}) bool { return len(x.([]interface{})) > 0 }
+func has(x interface{}) bool        { return len(x.([]interface{})) > 0 }
 func get(x interface{}) interface{} { return x.([]interface{})[0] }
-func num(x interface{}) int { return int(x.(float64)) }
+func num(x interface{}) int         { return int(x.(float64)) }
 func intsOf(x interface{}) []byte {
 	raw := x.([]interface{})
 	b := make([]byte, len(raw))
@@ -105,8 +105,12 @@ func bytesArr(b []byte) arr {
 	}
 	return raw
 }
-func longOf(x interface{}) int64  { return int64(binary.BigEndian.Uint64(intsOf(x))) }
-func longArr(v int64) arr         { b := make([]byte, 8); binary.BigEndian.PutUint64(b, uint64(v)); return bytesArr(b) }
+func longOf(x interface{}) int64 { return int64(binary.BigEndian.Uint64(intsOf(x))) }
+func longArr(v int64) arr {
+	b := make([]byte, 8)
+	binary.BigEndian.PutUint64(b, uint64(v))
+	return bytesArr(b)
+}
 func opt(present bool, v interface{}) arr {
 	if present {
 		return arr{v}
